@@ -9,6 +9,8 @@ import Nlmodel.Driver.GcOps
 import Nlmodel.Model.Verifier
 import Nlmodel.Proofs.Lemmas.SimFnValidate
 import Nlmodel.Proofs.Lemmas.SimHValidate
+import Nlmodel.Proofs.Lemmas.ResolveHeap
+import Nlmodel.Proofs.Lemmas.ResolveFn
 open Nl
 
 /-- character classes: loaded from the table dumped by the harness from Rust's std
@@ -159,7 +161,11 @@ def handle (cc : CharClass) (line : String) : String :=
       | .ok ast =>
         match compileProgram ast with
         | .error _ => "nocompile"
-        | .ok (r, _) => if SimF.inFragment r then "proved" else if SimH.inFragmentH r then "proved-heap" else "outside"
+        | .ok (r, _) =>
+          -- `-r1`: the source tree is in a SYNTACTIC fragment for which the resolver part is a theorem too (no validation)
+          if SimF.srcTop ast then "proved-r1"
+          else if SimH.inSourceH ast then "proved-heap-r1"
+          else if SimF.inFragment r then "proved" else if SimH.inFragmentH r then "proved-heap" else "outside"
     | none => "bad-hex"
   | _ => "bad-request"
 
